@@ -241,7 +241,8 @@ def minimise(check, viol, max_replays=400):
 
 def write_replay(pid, viol, min_lists, out, verif_seed):
     os.makedirs(os.path.join(VERIF_DIR, "replays"), exist_ok=True)
-    name = "%s-%s-%d-%d.json" % (pid, viol["clause"].replace(".", "_"), verif_seed, viol["index"])
+    name = "%s-%s-%d-%d-%s.json" % (pid, viol["clause"].replace(".", "_"), verif_seed, viol["index"],
+                                    "%08x" % (h64(viol["sig"]) & 0xFFFFFFFF))
     path = os.path.join(VERIF_DIR, "replays", name)
     match = [v for v in out.violations if v.key() == (viol["clause"], tuple(viol["sig"]))]
     data = {
